@@ -68,7 +68,7 @@ type sk struct {
 	elseIf   bool // render `else if` when els is a single if
 	emptyEls bool // render `else {}` when els is empty
 	// for
-	cond, post int // -1 none
+	cond, post int  // -1 none
 	semis      bool // render the three-clause header even when init and post are absent
 	body       []*sk
 	// switch
@@ -663,8 +663,8 @@ func skPredict(body []*sk, o orc, budget int) ([]string, bool) {
 
 type skShape struct {
 	conds, ranges, tags int
-	loop               bool
-	tagVals            map[int]bool
+	loop                bool
+	tagVals             map[int]bool
 }
 
 func (sh *skShape) scan(b []*sk) {
@@ -1340,16 +1340,16 @@ func mCompile(L int, s *sk) []string {
 		res = append(res, pst...)
 		if len(cnd) > 0 {
 			res = append(res, cnd...)
-			return append(res, mJ("CJumpTrue", -(len(block) + len(pst) + len(cnd) + 1)))
+			return append(res, mJ("CJumpTrue", -(len(block)+len(pst)+len(cnd)+1)))
 		}
-		return append(res, mJ("CJump", -(len(block) + len(pst) + 1)))
+		return append(res, mJ("CJump", -(len(block)+len(pst)+1)))
 	case "range":
 		block := mBlock(L+2, s.body)
 		res := append(mCall("FLen", s.l, 1), fmt.Sprintf("CRange %d %s", L, coqZ(int64(len(block)))))
 		res = append(res, mRewrite(block,
 			func(n int) (int, bool) { return len(block) - n, true },
 			func(n int) (int, bool) { return len(block) - n - 1, true })...)
-		return append(res, fmt.Sprintf("CIter %d %d %d %s", L, L+1, L+1, coqZ(int64(-(len(block) + 1)))))
+		return append(res, fmt.Sprintf("CIter %d %d %d %s", L, L+1, L+1, coqZ(int64(-(len(block)+1)))))
 	case "switch":
 		var res []string
 		isv, L1 := s.tag >= 0, L
